@@ -30,11 +30,15 @@ Mentioned(reqs) == UNION {reqs[i] : i \in 1..Len(reqs)}
 \* An operation without requirements is public.  When a credential is hard-rejected
 \* while another alternative is satisfied, both readings of the statement are admitted
 \* (fail-closed denial, or admission through the satisfied alternative).
-Allowed(reqs, cred) ==
+\* consulted: the schemes whose rejection may deny the request (normally those the
+\* requirements mention; with ignore_not_implemented also the implemented schemes of a
+\* dropped alternative -- the statement says nothing about those, so both outcomes stay admitted)
+AllowedM(reqs, cred, consulted) ==
   IF reqs = <<>> THEN {"handler"}
   ELSE IF ~Satisfiable(reqs, cred) THEN {"401"}
-  ELSE IF Rejected(cred) \cap Mentioned(reqs) # {} THEN {"401", "handler"}
+  ELSE IF Rejected(cred) \cap consulted # {} THEN {"401", "handler"}
   ELSE {"handler"}
+Allowed(reqs, cred) == AllowedM(reqs, cred, Mentioned(reqs))
 
 (********************* implementation layer: generation ********************)
 \* index order: first occurrence, ascending inside one requirement
